@@ -30,7 +30,7 @@ for d in sorted(glob.glob(ROOT + "/*/")):
     meta = {
         "seed": sid, "breaks_property": prop, "files_touched": files,
         "origin": ORIGIN["REV"] if sid.startswith("REV") else "written by a sub-agent that was given only the property text and a scratch worktree",
-        "needs_to_manifest": (re.search(r"(?is)(needs?|manifests? when|what it needs)[^\n]*\n?(.{0,400})", notes).group(0)[:500] if re.search(r"(?i)needs?|manifest", notes) else notes[:300]),
+        "needs_to_manifest": ((re.search(r"(?is)(needs?|manifests? when|what it needs)[^\n]*\n?(.{0,400})", notes) or re.search(r"(?s).{0,300}", notes)).group(0)[:500]),
         "confirmed_by_me": {"command": "tools/seed_confirm.sh " + sid + "  (scratch worktree of /repo HEAD; cargo test --offline -p uiua --no-default-features --test seed_demo)",
                              "demo_without_patch": rwo[-1] if rwo else None, "demo_with_patch": rw[-1] if rw else None},
         "checks_run": {"command": "tools/run_seed.sh " + sid + " <prop>  (patch applied to a scratch worktree, ./check <prop> --tier quick with VERIF_REPO pointing at it)", "results": checks},
